@@ -38,6 +38,8 @@ AMBIGUOUS_INPUTS = [["a", "aa", "aaa", "aaaa", ""], ["aa", "ab", "aaa", "bb", "a
 COMPUTED = [
     ("<start> ::= <n> <x>{int(<n>)} <y>*\n<n> ::= '1' | '2' | '3'\n<x> ::= 'a' | 'aa'\n<y> ::= 'a'\n", ["1a", "2aa", "2aaa", "3aaaa", "1"]),
     ("<start> ::= <len> <item>{int(<len>)}\n<len> ::= r'[0-3]'\n<item> ::= 'x' | 'y' 'z'?\n", ["0", "1x", "2xyz", "3yzyx", "2x"]),
+    # the repetition sits in a nonterminal of its own: a <body> fragment can only be parsed with a context tree (hookin_parent)
+    ("<start> ::= <len> <body>\n<len> ::= r'[0-3]'\n<body> ::= <item>{int(<len>)}\n<item> ::= 'x' | 'y'\n", ["3xyx", "2xy", "xyx", "yy", "x", "1y", "xxx"]),
 ]
 
 
@@ -100,6 +102,15 @@ def run_request(f, req):
         return list(itertools.islice(f.grammar.parse_multiple(inp, start, mode=pm, include_controlflow=cf), 60))
     if kind == "api":
         return list(itertools.islice(f.parse(inp, prefix=(mode == "prefix")), 60))
+    if kind == "hooked":
+        # a fragment parsed in the context of a tree that holds the symbol its computed repetition refers to
+        from fandango.language.symbols import NonTerminal
+        from fandango.language.tree import DerivationTree
+
+        lt = f.grammar.parse(str(k), "<len>")
+        ctx = DerivationTree(NonTerminal("<start>"), [lt] if lt is not None else [])
+        t = f.grammar.parse(inp, "<body>", mode=pm, hookin_parent=ctx)
+        return [t] if t is not None else []
     raise ValueError(kind)
 
 
@@ -221,6 +232,13 @@ def run_case(c):
             kind = rng.choice(["first", "first", "forest", "forest", "abandon", "multiple", "api"])
             if kind == "api" and (start != "<start>" or cf):
                 kind = "forest"
+            if "<body> ::=" in text and "<len> ::=" in text:
+                r2 = rng.random()
+                if r2 < 0.2:
+                    kind, start, cf = "hooked", "<body>", False
+                    stats["hooked_requests"] += 1
+                elif r2 < 0.5:
+                    start = "<body>"        # the same fragment WITHOUT a context tree
             k = rng.randint(1, 3)
             req = (inp, start, mode, cf, kind, k)
             ref = reference(req)
